@@ -1,1 +1,1 @@
-
+import CbOblig.C04
